@@ -772,6 +772,16 @@ func genC14(rng *rand.Rand, seed uint64, tier string) *Script {
 		for i, n := 0, rng.IntN(7); i < n; i++ {
 			ops = append(ops, genMixedTx(rng, &g))
 		}
+		if rng.IntN(6) == 0 {
+			// a crowded block: dozens of Ethereum txs (several index writes if the indexer ever splits its batch)
+			for i, n := 0, 17+rng.IntN(30); i < n; i++ {
+				w := rng.IntN(g.Wallets)
+				ops = append(ops, Op{K: "eth", W: w, To: fmt.Sprintf("w%d", (w+1)%g.Wallets), Val: "1", Gas: "i", Price: "b+1"})
+			}
+			if mode == "kills" && rng.IntN(2) == 0 {
+				ops = append(ops, Op{K: "idx", Mut: "kill", Ref: rng.IntN(3)})
+			}
+		}
 		ops = append(ops, Op{K: "block", Dt: pick(rng, 1, 5, 5), Prop: rng.IntN(3), Byz: rng.IntN(3) == 0})
 		switch mode {
 		case "kills":
